@@ -23,7 +23,7 @@ Streams (all seeded by VERIF_SEED):
              table against the Lean model, outcome + request view against an independent Python
              statement (PyGlue)
 """
-import random
+import random, re
 from .. import common as C
 
 MANIFEST = dict(
@@ -596,10 +596,33 @@ def gen_prims(ctx):
     return L
 
 
+class ProducerCrash(Exception):
+    """the real encoder (lshpack_enc / nghttp2 through the harness) died while producing the histories"""
+    def __init__(self, line, rc, err, confirmed):
+        Exception.__init__(self, "producer crashed on: " + line[:200])
+        self.line, self.rc, self.err, self.confirmed = line, rc, err, confirmed
+
+
 def run_tool(exe_cmd, lines):
     out, rc, err = C.parallel_lines(exe_cmd, lines)
+    if (rc != 0 or len(out) != len(lines)) and not re.search(r"Sanitizer|runtime error:|Assertion|assert", err or ""):
+        out, rc, err = C.parallel_lines(exe_cmd, lines)        # killed without a report (load?): once more
     if rc != 0 or len(out) != len(lines):
-        raise RuntimeError("producer run failed rc=%s: %s" % (rc, err[-1500:]))
+        # a sanitizer report / abort inside the real encoder is a result, not an infrastructure failure:
+        # find the line, confirm it alone, and hand it to run() as the failing input
+        bad = None
+        for i, o in enumerate(out):
+            if o == "<crash>":
+                bad = i
+                break
+        if bad is None:
+            bad = min(len(out), len(lines) - 1)
+        o1, rc1, err1 = C.run_lines(exe_cmd, [lines[bad]])
+        if rc1 == 0:
+            # not reproducible on its own (state carried by earlier lines of the chunk): try growing prefixes
+            lo = max(0, bad - 400)
+            o1, rc1, err1 = C.run_lines(exe_cmd, lines[lo:bad + 1])
+        raise ProducerCrash(lines[bad], rc1 if rc1 else rc, (err1 or err)[-4000:], rc1 != 0)
     return out
 
 
@@ -1370,7 +1393,16 @@ def run(ctx):
         return
     prims = gen_prims(ctx)
     ctx.differential("prims(int/str/huffman)", [exe], "hpack", prims, oracle, classify)
-    valid = gen_histories(ctx, exe)
+    try:
+        valid = gen_histories(ctx, exe)
+    except ProducerCrash as ex:
+        ctx.violation("crash:encoder-histories:%s" % ex.line.split(" ")[0],
+                      "the real HPACK encoder crashed / sanitizer report while encoding a header-list history "
+                      "(table-size changes included)",
+                      {"property": ctx.pid, "kind": "sanitizer-or-crash", "correspondence": "conn-valid(producer)",
+                       "input": ex.line, "rc": ex.rc, "stderr": ex.err, "confirmed_alone_or_with_prefix": ex.confirmed},
+                      found=True)
+        return
     ctx.differential("conn-valid(3 encoders -> lshpack_dec)", [exe], "hpack", valid, oracle, classify)
     bad = corrupt_lines(ctx, valid)
     ctx.differential("conn-corrupt(single bit/byte)", [exe], "hpack", bad, oracle, classify)
